@@ -50,6 +50,7 @@ type Val struct {
 	fn    *ssa.Function // static function value
 	binds []Val         // closure bindings
 	cst   *ssa.Const
+	lit   *big.Int // spec-level literal (bound variable of an expanded quantifier)
 }
 
 func (p *Ptr) extend(el pathEl) *Ptr {
